@@ -31,3 +31,20 @@ def shuffles():
 def install():
     np.random.shuffle = _shuffle
     np.random.seed(0)
+    install_zero_empty()
+
+
+def install_zero_empty():
+    """Uninitialised memory is a source of nondeterminism (e.g. rows of the returned GJK simplex beyond n_points,
+    which epa() then consumes). Python-level np.empty/np.empty_like hand out zero-filled arrays in the worker, so
+    that one plan is one exactly repeatable execution. Compiled kernels are unaffected."""
+    _zeros, _zeros_like = np.zeros, np.zeros_like
+
+    def empty(shape, dtype=float, order="C", **kw):
+        return _zeros(shape, dtype=dtype, order=order)
+
+    def empty_like(a, dtype=None, order="K", subok=True, shape=None, **kw):
+        return _zeros_like(a, dtype=dtype, order=order, subok=subok, shape=shape)
+
+    np.empty = empty
+    np.empty_like = empty_like
